@@ -37,7 +37,7 @@ def proto_cmd(a, obs=None):
         return "inject %d %s%s" % (a["p"], "-" if a.get("short") else a["m"], words)
     if k == "dial" and "mode" in a:
         return "dial %s %d" % (a["mode"], a["op"])
-    if k in ("dial", "dfail", "lclose", "dclose", "close", "probe"):
+    if k in ("dial", "dfail", "lclose", "dclose", "close", "probe", "devstart", "devcancel"):
         return k
     if k == "reject":
         return "reject %d" % (1 if a["on"] else 0)
